@@ -926,6 +926,7 @@ impl C18 {
             policy: make_default_simple_policy(net),
             now_secs: 1_700_000_000,
             trusted_oracles: vec![],
+            no_checkpoints: false,
         }
     }
 }
